@@ -308,8 +308,9 @@ class Events(Monitor):
                     if ev.kind == "dstate":
                         # located on the derivative of the cubic interpolant: O(h^3)
                         interp = 0.01 * h_over ** 3 * world.problem.deriv4_scale(k) * float(np.max(np.abs(np.asarray(y, dtype=np.float64)))) * 4
-                    bound = abs(float(ev.scale)) * (20 * (E * max(Lp, 1.0) + interp) + 64 * eps * (1 + hd) * max(1.0, abs(_f(te))))
-                    world.ratio("C09.on_event_surface", gv / bound)
+                    Ks = 3000 if ev.kind == "dstate" else 200        # calibrated: >= 10x the largest ratio seen on the unchanged tree (see evidence)
+                    bound = abs(float(ev.scale)) * (Ks * (E * max(Lp, 1.0) + interp) + 64 * eps * (1 + hd) * max(1.0, abs(_f(te))))
+                    world.ratio("C09.on_event_surface_" + ev.kind, gv / bound * (Ks / 20.0))
                     if gv > bound:
                         world.violate("C09", "C09.on_event_surface", "|g(t[-1],y[-1])| = %.3e > %.3e at the terminal stop (event %d, scale %g)" % (gv, bound, ev.idx, ev.scale))
                     # earliest terminal root of the exact trajectory
